@@ -158,7 +158,7 @@ def triage_errfile(path):
     except OSError:
         return {"signal": "UNKNOWN"}, ""
     fields = {}
-    m = re.search(r"ERROR: (AddressSanitizer|LeakSanitizer|MemorySanitizer): ([\w-]+)", txt)
+    m = re.search(r"(?:ERROR|WARNING): (AddressSanitizer|LeakSanitizer|MemorySanitizer): ([\w-]+)", txt)
     if m:
         fields["signal"] = {"AddressSanitizer": "ASAN", "LeakSanitizer": "LSAN", "MemorySanitizer": "MSAN"}[m.group(1)]
         fields["kind"] = m.group(2)
@@ -382,6 +382,11 @@ def main_check(spec, argv):
             # optimiser may drop)
             if tier == "quick" and cfgname == "rel-asan":
                 extra = ["--slice", str(spec.get("quick_ndebug_slice", 4))]
+            # clang MemorySanitizer build (library and harness are plain C, everything is instrumented): every
+            # fourth unit; reports values the library leaves uninitialised once a harness oracle looks at them,
+            # and library branches on uninitialised data
+            if cfgname == "msan":
+                extra = ["--light", "--slice", "4"]
             run_harness(exe, os.path.join(workdir, cfgname, "out"), tier, seed, res, nshards=args.jobs,
                         extra_args=extra, unit_timeout=spec.get("unit_timeout", 300), cfgname=cfgname)
             per_config[cfgname] = {"cases": res.cases - cases_before}
